@@ -104,7 +104,7 @@ func init() {
 	register(ruleState, ruleStateVerbose, ruleInitOnly, ruleScope)
 	addProp(&PropSpec{
 		ID:    "C09",
-		Rules: []string{"R-STATE", "R-INITONLY", "R-SCOPE", "R-ONELEVEL", "R-LAST", "R-EXECADDR", "R-EMITORDER", "R-COLLMONO", "R-NEXTBLIND", "R-FAILSTOP"},
+		Rules: []string{"R-STATE", "R-INITONLY", "R-SCOPE", "R-ONELEVEL", "R-LAST", "R-EXECADDR", "R-EMITORDER", "R-COLLMONO", "R-NEXTBLIND", "R-FAILSTOP", "R-PAIR-P", "R-FILTER", "R-UNWRAPTHREAD"},
 		Explanation: "The 'context intact' clause of C09 as a typestate over the Executor's fields: every function that overwrites @ (current), the innermost array size, the base object or the structural-error flag loads the previous value first and writes it back on every exit path, error exits included; `$`, variables, options and the path are written only before evaluation starts. " +
 			"Decides the structural necessary condition (no leak of a nested context); does not decide the concatenation equation itself.",
 		Decided:     []string{"R-STATE: save/restore on every exit for each mutated context field (defer literal, restorer helper deferred at each call site, or explicit stores)", "R-INITONLY: `$`/vars/useTZ/path fixed during evaluation", "R-SCOPE: while @ is rebound no status-returning evaluation receives the step's own node (the rest of the outer chain sees the outer @)"},
@@ -144,7 +144,7 @@ func init() {
 	register(rulePanicExec)
 	addProp(&PropSpec{
 		ID:          "C05",
-		Rules:       []string{"R-PANIC-EXEC", "R-EXH", "R-ERRSITES", "R-ERRCLASS", "R-INPUT-RO", "R-BCE-EXEC", "R-LISTINDEX", "R-FINITE", "R-DIV", "R-REGEXFLAGS", "R-NILOUT"},
+		Rules:       []string{"R-PANIC-EXEC", "R-EXH", "R-ERRSITES", "R-ERRCLASS", "R-INPUT-RO", "R-BCE-EXEC", "R-LISTINDEX", "R-FINITE", "R-DIV", "R-REGEXFLAGS", "R-NILOUT", "R-ADDRKEY"},
 		Explanation: "Totality and error classification of execution as shapes of the code. Every explicit panic site and every ErrInvalid construction reachable from the entry points is shown infeasible by an abstract interpretation whose universes are derived from the repository: node shapes per operand slot from the goyacc grammar's actions, enum constants, the 13 documented item types, the 5 datetime types; call sites are expanded three levels up and callbacks stay paired with their call site. Every error that can reach an entry point wraps ErrExecution or is NULL (Exists/Match only).",
 		Decided: []string{"R-PANIC-EXEC: no feasible explicit panic / Must* / unchecked assertion below the entry points", "R-BCE-EXEC: every index/slice operation of package exec is proven in bounds by the compiler or by one of three structural arguments (length-tested constant index, loop between bounds the callee clamps on every successful return, stringer name longer than the slice offset)", "R-LISTINDEX: constant-index reads of item sequences are length-tested", "R-INPUT-RO: no write into caller-owned containers, and no caller-owned container is adopted as the backing store of a result list",
 			"R-EXH: no feasible ErrInvalid construction for parser-produced paths and documented item types",
@@ -171,7 +171,7 @@ func init() {
 func init() {
 	addProp(&PropSpec{
 		ID:          "C03",
-		Rules:       []string{"R-GRAMSYNC", "R-PREC", "R-KEYWORDS", "R-VOCAB", "R-OPTOKENS", "R-LEXRESET", "R-PRED", "R-NILNODE", "R-RUNEWRITE", "R-COMMENT", "R-FOLD", "R-NUMLIT", "R-EMPTYPROD", "R-RUNESTEP", "R-RUNEERR", "R-NARROW", "R-TOKENRANGE", "R-ERRDISCARD", "R-PARSE-RESULT", "R-GLOBALS", "R-NILOUT"},
+		Rules:       []string{"R-GRAMSYNC", "R-PREC", "R-KEYWORDS", "R-VOCAB", "R-OPTOKENS", "R-LEXRESET", "R-PRED", "R-NILNODE", "R-RUNEWRITE", "R-COMMENT", "R-FOLD", "R-NUMLIT", "R-EMPTYPROD", "R-RUNESTEP", "R-RUNEERR", "R-NARROW", "R-TOKENRANGE", "R-ERRDISCARD", "R-PARSE-RESULT", "R-GLOBALS", "R-NILOUT", "R-CTORID"},
 		Explanation: "'Every spelling parses to the tree the grammar assigns it' has a large structural part: the compiled parser must be the grammar (goyacc is re-run and the result compared as syntax trees), the grammar must be conflict-free so that the precedence declarations decide nesting, the keyword table must agree with the grammar's tokens and key names, keywords that the printer emits must lead back to the same constants, the token buffer must never be dropped without an error, and the predicate flag must be set by exactly one production. These are agreements between sibling tables (lexer, grammar, generated parser, printer), decided from the sources.",
 		Decided: []string{"R-GRAMSYNC: grammar.go = goyacc(grammar.y); 0 conflicts", "R-PREC: declared precedence/associativity ↔ operator constants (via the actions)",
 			"R-KEYWORDS: one lower-case spelling per keyword token, true/false/null case-sensitive, every keyword usable as key name", "R-VOCAB: printed keyword → lexer → token → production → same constant",
@@ -182,7 +182,7 @@ func init() {
 	})
 	addProp(&PropSpec{
 		ID:          "C02",
-		Rules:       []string{"R-ESC", "R-PAREN", "R-OPPAREN", "R-PREC", "R-VOCAB", "R-OPTOKENS", "R-MARSHAL", "R-PARSE-RESULT", "R-RUNEWRITE", "R-RUNESTEP", "R-RUNEERR", "R-UNMARSHAL-ID", "R-FMTCONST", "R-NUMCLASS"},
+		Rules:       []string{"R-ESC", "R-PAREN", "R-OPPAREN", "R-PREC", "R-VOCAB", "R-OPTOKENS", "R-MARSHAL", "R-PARSE-RESULT", "R-RUNEWRITE", "R-RUNESTEP", "R-RUNEERR", "R-UNMARSHAL-ID", "R-FMTCONST", "R-NUMCLASS", "R-NARROW"},
 		Explanation: "Necessary conditions of Parse(p.String()) = p that are visible in the shape of the printer and the lexer: every escape the printer can emit is decoded to the same code point; printed keywords lead back to the same constants; the printer's priorities equal the grammar's precedence levels; a node that can only carry an accessor chain inside parentheses prints those parentheses; the three marshalling forms are exactly String() and the unmarshalling forms hand their whole input to Parse.",
 		Decided: []string{"R-ESC: printer escape table ⊆ lexer escape table with equal meaning", "R-PAREN: parenthesisation before a trailing accessor chain (today: 6 known findings, D16)", "R-PREC: priority table = grammar levels",
 			"R-VOCAB: keyword vocabulary", "R-MARSHAL / R-PARSE-RESULT: Marshal* = String(), Unmarshal*/Scan = Parse of the whole input"},
